@@ -12,11 +12,15 @@ theorem kd_tree_sk (mk atc : Bytes) (h b : Nat) (iv : Bytes) :
   unfold Gen.kd.derive_emv2000_tree_sk deriveEmv2000TreeSk pyDiv
   try simp only [bind_pure]      -- `do let v ← e; pure v` is `e` (single-exit rewrites)
   simp only [kd_tree_walk, kd_tree_derive, tools_xor, tools_adjust, bind, Except.bind, pure, Except.pure, except_match_eta]
+  -- a tree without branches or without levels has at most one key: an explicit "must be positive" guard in front of
+  -- the gate refuses nothing the gate does not refuse
+  have hz : b = 0 → b ^ h ≤ 65535 := fun e => by subst e; cases h <;> simp
+  have hh0 : h = 0 → b ^ h ≤ 65535 := fun e => by subst e; simp
   by_cases h1 : mk.length = 16 <;> by_cases h2 : atc.length = 2 <;> by_cases h3 : iv.length = 16 <;>
-    by_cases hg : b ^ h ≤ 65535 <;> by_cases hb : b = 0 <;>
-    simp [h1, h2, h3, hg, hb, throw, throwThe, MonadExceptOf.throw]
+    by_cases hg : b ^ h ≤ 65535 <;> by_cases hb : b = 0 <;> by_cases hh : h = 0 <;>
+    simp [h1, h2, h3, hg, hb, hh, throw, throwThe, MonadExceptOf.throw]
   all_goals (repeat (first | rfl | split))
-  all_goals first | (simp_all; done) | slice_forms
+  all_goals first | (simp_all; done) | (exfalso; first | exact hg (hz hb) | exact hg (hh0 hh) | omega) | slice_forms
 
 /-- **C05 about the translated source**: accepted parameters give the Annex A1.3 tree key, and exactly the
 parameters with `b^H > 65535` are accepted. -/
